@@ -171,9 +171,15 @@ func (e *Eval) Prepare(flags ...[]byte) error {
 	// variable, so that the virtual machine knows it should
 	// run a series of optimizations.
 	//
-	_, hostSet := e.environment.Get("OPTIMIZE")
+	// The virtual machine only looks whether the variable exists,
+	// so a variable of that name which our host stored is put
+	// aside while the machine is built.
+	//
+	hostValue, hostSet := e.environment.Get("OPTIMIZE")
 	if optimize {
 		e.environment.Set("OPTIMIZE", &object.Boolean{Value: true})
+	} else if hostSet {
+		e.environment.Unset("OPTIMIZE")
 	}
 
 	//
@@ -187,11 +193,14 @@ func (e *Eval) Prepare(flags ...[]byte) error {
 	e.machine = vm.New(e.constants, e.instructions, e.functions, e.environment)
 
 	//
-	// The variable was only a message for the virtual machine: unless
-	// our host set it, remove it again.  Otherwise scripts could see
-	// it, and a later Prepare with NoOptimize would still optimize.
+	// The variable was only a message for the virtual machine: put
+	// back what our host had stored under that name, or remove it
+	// again.  Otherwise scripts could see it, and a later Prepare
+	// with NoOptimize would still optimize.
 	//
-	if optimize && !hostSet {
+	if hostSet {
+		e.environment.Set("OPTIMIZE", hostValue)
+	} else if optimize {
 		e.environment.Unset("OPTIMIZE")
 	}
 
